@@ -194,7 +194,11 @@ def run_genotype(
                 logger.info("Using uniform recombination rate of %g cM/Mb.", recombrate)
             recombination_cost_computer = UniformRecombinationCostComputer(recombrate)
 
-        samples = frozenset(samples)
+        # Process the samples in the order of the VCF columns and not in set order: the order of
+        # the members of a family decides their numeric ids and thereby the order of the
+        # floating point operations of the genotyping DP (last digits of the likelihoods)
+        requested_samples = frozenset(samples)
+        samples = [sample for sample in vcf_reader.samples if sample in requested_samples]
         families, family_trios = setup_families(samples, ped, max_coverage)
         for trios in family_trios.values():
             for trio in trios:
